@@ -111,7 +111,13 @@ P8 = {   # one name, three roles: import qualifier, declaration, parameter - ren
     ],
     "nonident": [("main.oal", 1, 8)],
 }
-PROGRAMS = {"one-name-three-roles": P8, "modules-in-sub-directories": P7, "unqualified-import": P5, "nested-same-name-binders": P6, "single-module": P1, "two-modules": P2, "shadowing-and-reference": P3, "sibling-modules-same-shape": P4}
+P9 = {   # identifiers that start a line: a range that begins at column 0 must not reach back into the previous line
+    "files": {"main.oal": "let item = { 'id num };\nlet cursor = { 'after str };\nlet page = { 'items [item] } &   // one page of items, then where to continue\ncursor;\nres /items on get -> <page> ::\n<status=404,\ncursor>;\n"},
+    "occ": [('main.oal', 0, 4, 'item', 'decl', 'item'), ('main.oal', 1, 4, 'cursor', 'decl', 'cursor'), ('main.oal', 2, 4, 'page', 'decl', 'page'), ('main.oal', 2, 21, 'item', 'use', 'item'),
+            ('main.oal', 3, 0, 'cursor', 'use', 'cursor'), ('main.oal', 4, 22, 'page', 'use', 'page'), ('main.oal', 6, 0, 'cursor', 'use', 'cursor')],
+    "nonident": [("main.oal", 2, 11)],
+}
+PROGRAMS = {"uses-at-the-start-of-a-line": P9, "one-name-three-roles": P8, "modules-in-sub-directories": P7, "unqualified-import": P5, "nested-same-name-binders": P6, "single-module": P1, "two-modules": P2, "shadowing-and-reference": P3, "sibling-modules-same-shape": P4}
 
 
 def relname(uri, root):
